@@ -314,7 +314,7 @@ def _vsock_component():
     def g(rng, tier):
         return vsock_common.gen(rng, tier) + c05.gen_targeted(rng.fork("tx"), 160 if tier == "quick" else 3000) + \
             c10.gen_hostile(rng.fork("hostile"), tier)[:300 if tier == "quick" else 100000]
-    c = vsock_common.component("c14_datagram_ok+c14_segments_ok", name="vsock_mtu")
+    c = vsock_common.component("c14_datagram_ok+c14_segments_ok+c14_wire_ok", name="vsock_mtu")
     c["gen"] = g
     return c
 
